@@ -111,7 +111,18 @@ func (tr *Tr) mergeStates(sts []*State) *State {
 	if len(sts) == 1 {
 		return sts[0].copy()
 	}
-	out := &State{heap: map[string]*HeapV{}, defers: map[*ssa.Defer]Term{}}
+	out := &State{heap: map[string]*HeapV{}, defers: map[*ssa.Defer]Term{}, owned: map[string]ownedCell{}}
+	for k, v := range sts[0].owned {
+		same := true
+		for _, s := range sts[1:] {
+			if w, ok := s.owned[k]; !ok || w != v {
+				same = false
+			}
+		}
+		if same {
+			out.owned[k] = v
+		}
+	}
 	reaches := make([]Term, len(sts))
 	for i, s := range sts {
 		reaches[i] = s.reach
@@ -188,6 +199,7 @@ func (a *Act) run(st *State, args []Term) (*State, []Term) {
 	}
 	a.entryState = st.copy()
 	a.recovers = fn.Recover != nil && tr.eng.deferRecovers(fn)
+	a.mergeRunDefers = countRunDefers(fn) > 1
 	a.findLoops()
 	a.prepareAllocs()
 	order := rpo(fn)
@@ -198,9 +210,32 @@ func (a *Act) run(st *State, args []Term) (*State, []Term) {
 			continue
 		}
 		cur := in
-		for _, instr := range b.Instrs {
+		for i, instr := range b.Instrs {
+			if _, ok := instr.(*ssa.RunDefers); ok && a.mergeRunDefers {
+				a.pendingExits = append(a.pendingExits, pendingExit{st: cur, b: b, idx: i})
+				break
+			}
 			a.instr(cur, b, instr)
 		}
+	}
+	if len(a.pendingExits) > 0 {
+		// run the deferred calls once on the merged exit state, then finish each exit
+		sts := make([]*State, len(a.pendingExits))
+		for i, pe := range a.pendingExits {
+			sts[i] = pe.st
+		}
+		merged := tr.mergeStates(sts)
+		a.runDefers(merged, nil)
+		for _, pe := range a.pendingExits {
+			cur := merged.copy()
+			// this exit's share of the merged state: its own path condition, restricted to
+			// paths on which the deferred calls returned
+			cur.reach = tr.define("reach_exit", "Bool", And(pe.st.reach, merged.reach))
+			for _, instr := range pe.b.Instrs[pe.idx+1:] {
+				a.instr(cur, pe.b, instr)
+			}
+		}
+		a.pendingExits = nil
 	}
 	// panic landing
 	if a.recovers && len(a.panics) > 0 {
@@ -312,6 +347,9 @@ func (a *Act) blockIn(b *ssa.BasicBlock) *State {
 	mods, all := a.loopMods(li)
 	for _, name := range sortedKeys(tr.comps) {
 		c := tr.comps[name]
+		if c.local && !mods[name] {
+			continue // private cells cannot be written by callees
+		}
 		if !all && !mods[name] {
 			continue
 		}
@@ -321,7 +359,7 @@ func (a *Act) blockIn(b *ssa.BasicBlock) *State {
 		} else if c.value {
 			hs.heap[name] = tr.heapFrame(prev, func(key []Term) Term { return tr.preExisting(key[0]) }, "loop_"+name)
 		} else {
-			hs.heap[name] = tr.newHeapBase(c, "loop_"+name)
+			tr.havocCells(hs, c, "loop")
 		}
 	}
 	na := tr.freshConst("alloc_loop", "Int")
@@ -533,4 +571,16 @@ func escapes(v ssa.Value, depth int) bool {
 		}
 	}
 	return false
+}
+
+func countRunDefers(fn *ssa.Function) int {
+	n := 0
+	for _, b := range fn.Blocks {
+		for _, in := range b.Instrs {
+			if _, ok := in.(*ssa.RunDefers); ok {
+				n++
+			}
+		}
+	}
+	return n
 }
